@@ -679,6 +679,25 @@ def rule_RC(ctx, tier):
             rr.ok("extended appointment = (request appointment, authenticated id, request signature, current height)")
         else:
             rr.fail("extended-appointment-fields", "ExtendedAppointment::new(%s)" % ", ".join(og.show(x)[:50] for x in e_args), where=a.line_of(ea[0]))
+        # ... and the constructor keeps what it is given: each field of the record is the parameter of that name, untouched (the
+        # record is what gets stored, what the receipt is built from and what is returned on get_appointment)
+        cn = P.bodies.get("teos::extended_appointment::ExtendedAppointment::new")
+        if cn is None:
+            rr.anchor_missing("teos::extended_appointment::ExtendedAppointment::new")
+        else:
+            ret_ = og.strip(ctx.og.local(cn, 0))
+            if isinstance(ret_, tuple) and ret_ and ret_[0] == "agg":
+                badf = []
+                for fname, val in ret_[3]:
+                    want_ = next((i for i in range(1, cn.argc + 1) if cn.locals[i].get("name") == fname), None)
+                    if want_ is None or og.strip(val) != ("param", cn.id, want_):
+                        badf.append("%s = %s" % (fname, og.show(val)[:50]))
+                if not badf:
+                    rr.ok("ExtendedAppointment::new stores its %d parameters verbatim" % len(ret_[3]))
+                else:
+                    rr.fail("extended-appointment-ctor:%s" % badf[0].split(" = ")[0], "ExtendedAppointment::new does not keep its arguments as given (%s): what the tower stores, signs into the receipt and reads back is no longer what the user sent" % "; ".join(badf), where=cn.span)
+            else:
+                rr.fail("extended-appointment-ctor:shape", "ExtendedAppointment::new does not return a plain record of its parameters", where=cn.span)
         for st in stores:
             ap = arg_origin(ctx, a, st, 2)
             if has_call(ap, "ExtendedAppointment::new"):
